@@ -54,41 +54,44 @@ theorem multiset_next_increments {α : Type} (sets : List (List α)) (hne : sets
     | none => rw [hi] at h; simp at h; simp; omega
     | some p' => rw [hi] at h; simp at h; simp; omega
 
-/-- **Enumeration.**  With at least one set and no empty set the iterator terminates within fuel
-`Πn + 1`, never panics, and yields the combinations of `combos` — the `k`-th item is the digit vector
-of `k` — in that order. -/
-theorem multiset_enumeration {α : Type} (sets : List (List α)) (hne : sets ≠ [])
-    (hpos : ∀ s ∈ sets, s ≠ []) :
+/-- **Enumeration, every input.**  The iterator terminates within fuel `Πn + 1`, never panics, and
+yields the combinations of `combos` — the `k`-th item is the digit vector of `k` — in that order.  Since
+the repair of `MultiSet` (e2d1252) this needs no hypothesis: no set gives the single empty combination,
+an empty set gives none. -/
+theorem multiset_enumeration {α : Type} (sets : List (List α)) :
     toList sets = .ok ((combos (sizesOf sets)).map (pick sets)) :=
-  collect_from sets hne hpos
+  collect_from_all sets
 
 /-- fuel `Πn + 1` suffices, and any larger fuel gives the same list -/
-theorem multiset_fuel_suffices {α : Type} (sets : List (List α)) (hne : sets ≠ [])
-    (hpos : ∀ s ∈ sets, s ≠ []) (fuel : Nat) (h : prod (sizesOf sets) + 1 ≤ fuel) :
+theorem multiset_fuel_suffices {α : Type} (sets : List (List α)) (fuel : Nat)
+    (h : prod (sizesOf sets) + 1 ≤ fuel) :
     collect fuel (MultiSet.from sets) = .ok ((combos (sizesOf sets)).map (pick sets)) := by
   obtain ⟨k, rfl⟩ : ∃ k, fuel = fuelFor (sizesOf sets) + k := ⟨fuel - (prod (sizesOf sets) + 1), by
     simp only [fuelFor]; omega⟩
-  exact collectMap_fuel_mono _ _ _ _ (collect_from sets hne hpos) k
+  exact collectMap_fuel_mono _ _ _ _ (collect_from_all sets) k
 
 /-- the number of combinations is the product of the sizes -/
-theorem multiset_length {α : Type} (sets : List (List α)) (hne : sets ≠ [])
-    (hpos : ∀ s ∈ sets, s ≠ []) :
+theorem multiset_length {α : Type} (sets : List (List α)) :
     ∃ l, toList sets = .ok l ∧ l.length = prod (sizesOf sets) :=
-  ⟨_, collect_from sets hne hpos, by simp [combos_length]⟩
+  ⟨_, collect_from_all sets, by simp [combos_length]⟩
 
-/-- **Index sets** (what the plugin iterates): for `m ≥ 1` axes of sizes `nᵢ ≥ 1` the enumeration has
-length `Πnᵢ`, no index vector twice, every in-range index vector, and the `k`-th one has value `k`. -/
-theorem multiset_index_sets (ns : List Nat) (hne : ns ≠ []) (hpos : ∀ n ∈ ns, 0 < n) :
+/-- a run cut off after `k` calls of `next` (`take(k)`): the first `k` combinations, and the end is
+seen exactly when the product has fewer than `k` elements -/
+theorem multiset_bounded_run {α : Type} (sets : List (List α)) (k : Nat) :
+    takeN k (MultiSet.from sets)
+      = .ok (((combos (sizesOf sets)).map (pick sets)).take k, decide (prod (sizesOf sets) < k)) := by
+  have := takeN_of_collect _ _ _ (collect_from_all sets) k
+  simpa [combos_length] using this
+
+/-- **Index sets** (what the plugin iterates): for axes of sizes `nᵢ` (any number, any sizes) the
+enumeration has length `Πnᵢ`, no index vector twice, every in-range index vector, and the `k`-th one has value `k`. -/
+theorem multiset_index_sets (ns : List Nat) :
     ∃ l, toList (ns.map List.range) = .ok l ∧ l.length = prod ns ∧ l.Nodup ∧
       (∀ c, c ∈ l ↔ inRange ns c = true) ∧
       (∀ k, k < prod ns → ∃ c, l[k]? = some c ∧ val ns c = k) := by
   have hsz : sizesOf (ns.map List.range) = ns := by
     simp [sizesOf, List.map_map, Function.comp_def]
-  have h := collect_from (ns.map List.range) (by simpa using hne) (by
-    intro s hs
-    obtain ⟨n, hn, rfl⟩ := List.mem_map.mp hs
-    have := hpos n hn
-    simp only [ne_eq, List.range_eq_nil]; omega)
+  have h := collect_from_all (ns.map List.range)
   rw [hsz] at h
   have hl : (combos ns).map (pick (ns.map List.range)) = combos ns := by
     conv_rhs => rw [← List.map_id (combos ns)]
@@ -105,45 +108,50 @@ theorem multiset_first_axis_fastest (n : Nat) (ns : List Nat) (k : Nat) (hk : k 
     (combos (n :: ns))[k]? = some (k % n :: digits ns (k / n)) :=
   combos_getElem? (n :: ns) k hk
 
-/-- no set at all: `finished` is never set, the iterator yields `[]` for ever — no fuel suffices -/
-theorem multiset_no_sets_diverges {α : Type} (fuel : Nat) :
-    collect fuel (MultiSet.from ([] : List (List α))) = .diverges :=
-  collect_no_sets_diverges fuel
+/-- no set at all: the single empty combination (before e2d1252: `[]` for ever) -/
+theorem multiset_no_sets_single_empty_combination {α : Type} :
+    toList ([] : List (List α)) = .ok [[]] := by
+  simpa [combos, prod, digits] using collect_from_all ([] : List (List α))
 
-/-- an empty set: `len − 1` wraps around and the first `next` indexes out of bounds -/
-theorem multiset_empty_set_panics {α : Type} (sets : List (List α)) (h : [] ∈ sets) (fuel : Nat) :
-    collect (fuel + 1) (MultiSet.from sets) = .panic "multiset/sets-index" :=
-  collect_empty_set_panics sets h fuel
+/-- an empty set: no combination (before e2d1252: `len − 1` wrapped and the first `next` indexed out
+of bounds) -/
+theorem multiset_empty_set_no_combination {α : Type} (sets : List (List α)) (h : [] ∈ sets) :
+    toList sets = .ok [] := by
+  have hz : prod (sizesOf sets) = 0 := prod_eq_zero_of_mem _ (List.mem_map.mpr ⟨[], h, rfl⟩)
+  simpa [combos, hz] using collect_from_all sets
 
--- non-vacuity: the repository's own 2×1×3 example, a single-option axis in the middle, and the two
--- partial cases
+-- non-vacuity: the repository's own 2×1×3 example, a single-option axis in the middle, the two
+-- boundary cases, a run cut off
 example : toList [[1, 3], [2], [5, 7, 9]]
     = .ok [[1, 2, 5], [3, 2, 5], [1, 2, 7], [3, 2, 7], [1, 2, 9], [3, 2, 9]] := rfl
 example : combos [2, 1, 3] = [[0, 0, 0], [1, 0, 0], [0, 0, 1], [1, 0, 1], [0, 0, 2], [1, 0, 2]] := by
   decide
 example : ∃ l, toList ([3, 1, 2].map List.range) = .ok l ∧ l.length = 6 ∧ [2, 0, 1] ∈ l :=
   ⟨_, rfl, rfl, by decide⟩
-example : toList ([] : List (List Nat)) = .diverges := rfl
-example : toList [[1, 2], ([] : List Nat)] = .panic "multiset/sets-index" := rfl
+example : toList ([] : List (List Nat)) = .ok [[]] := rfl
+example : toList [[1, 2], ([] : List Nat)] = .ok [] := rfl
+example : takeN 2 (MultiSet.from [[7, 8, 9]]) = .ok ([[7], [8]], false) := rfl
+example : takeN 5 (MultiSet.from [[7, 8, 9]]) = .ok ([[7], [8], [9]], true) := rfl
 
 /-! ## The plugin -/
 
 /-- **The code is a total function**: on every JSON value, `GridSearchPlugin::process` (with its
-guard, over the partial `MultiSet`) neither panics nor diverges, and returns `process q`. -/
+guard, with every indexing explicit and the iteration fuelled) neither panics nor diverges, and returns `process q`. -/
 theorem process_never_panics_or_diverges (q : Json) : processO q = .ok (process q) :=
   processO_eq q
 
-/-- The guard is what makes it total (the defect fixed by commit 90097cd, kept visible in the model):
-the enumeration step *without* the guard diverges on a section without array-valued field … -/
-theorem unguarded_no_axis_diverges (initial : Json) :
-    expandO { keys := [], options := [], initial := initial } = .diverges :=
-  collectMap_no_sets_diverges _ initial rfl _
+/-- What the guard (90097cd) is for now that `MultiSet` is total (e2d1252): *without* it a section
+without array-valued field would yield the query once, minus its grid section, … -/
+theorem unguarded_no_axis_yields_the_query_once (initial : Json) :
+    expandO { keys := [], options := [], initial := initial } = .ok [initial] :=
+  collectMap_no_sets _ initial rfl 0
 
-/-- … and panics on a section with an empty array -/
-theorem unguarded_empty_axis_panics (p : Plan) (h : [] ∈ p.options) :
-    expandO p = .panic "multiset/sets-index" := by
+/-- … and a section with an empty array would yield no query at all: the query would vanish without
+a response.  The guard answers both with an error instead. -/
+theorem unguarded_empty_axis_yields_nothing (p : Plan) (h : [] ∈ p.options) :
+    expandO p = .ok [] := by
   have : ([] : List Nat) ∈ p.indices := List.mem_map.mpr ⟨[], h, rfl⟩
-  exact collectMap_empty_set_panics _ _ this _
+  exact collectMap_empty_set _ _ this _
 
 /-- no grid section (in particular: not an object) ⇒ the query passes through unchanged -/
 theorem passthrough_without_grid_section (q : Json) (h : q.get? gridKey = none) :
